@@ -197,6 +197,11 @@ def run(ctx, only_exports=False):
             for b in sub:
                 out.append([a, {"op": "save_file"}, {"op": "load_file"}, b, {"op": "load_file"}, {"op": "get_area"}])
                 out.append([a, {"op": "live_union_self"}, b, {"op": "get_demoted"}])
+                # a read-only query between two mutations (any later answer must not depend on it)
+                out.append([a, {"op": "get_demoted"}, b, {"op": "get_area"}])
+                out.append([a, {"op": "sky_within", "pix": 0}, b, {"op": "save_load"}, {"op": "get_demoted"}])
+            out.append([a, {"op": "get_demoted"}, {"op": "save_file"}, {"op": "load_file"}, {"op": "get_area"}])
+            out.append([a, {"op": "sky_within", "pix": 0}, {"op": "save_file"}, {"op": "export_moc"}, {"op": "load_file"}])
             for x in lives:
                 out.append([x, {"op": "union_live"}, a, {"op": "get_demoted"}])
                 for b in sub:
